@@ -1,3 +1,211 @@
-/-! # C09 — property theorems (to be written) -/
+import BddVerif.Lemmas.CountSupport
+import BddVerif.Lemmas.C02Built
+import BddVerif.Lemmas.OpConsistent
+/-!
+# C09 — model counts and support sets are exact
+
+Property theorems about the executable model of `src/_impl_bdd/_impl_util.rs`
+(`Model/Count.lean`: `Count.exactCardO`, `Count.clauseCardO`, `supportSet`, `sizePerVariable`).
+
+* A diagram is any array that is well-formed *by level* (`WFo A n`: terminals exact, links in range,
+  variables strictly increasing along links — what `validate`/`from_nodes` guarantee; no assumption on
+  the numbering of nodes, no assumption of reducedness); its function is `fun v => evW A n v (root A)`.
+  For canonical arrays this is `den A`.
+* `cnt n f` is the number of assignments of the variables `0 … n-1` that satisfy `f`, defined by
+  recursion on `n` and tied to the filtered list of all `2ⁿ` valuations (`cnt_eq_filter_length`,
+  `all_vals_enumeration`). All arithmetic is over unbounded `Nat`.
+* `cardinality()` (f64) is outside the kernel: partial, checked by the driver in exact rational
+  arithmetic against `exactCardO`.
+-/
 namespace B.Props.C09
+open B B.Count B.C02
+
+/-! ## the specification of "number of satisfying valuations" -/
+
+/-- `cnt n f` is the length of the list of all `2ⁿ` valuations of the variables `0 … n-1`, filtered by `f` -/
+theorem cnt_eq_filter_length (n : Nat) (f : (Nat → Bool) → Bool) :
+    cnt n f = ((allVals n).filter f).length := B.Count.cnt_eq_filter_length n f
+
+/-- … and that list really enumerates the valuations: `2ⁿ` entries, every assignment of the first `n`
+    variables occurs, no two entries agree on all of them -/
+theorem all_vals_enumeration (n : Nat) :
+    (allVals n).length = 2 ^ n ∧
+    (∀ w : Nat → Bool, ∃ u ∈ allVals n, ∀ i, i < n → u i = w i) ∧
+    (allVals n).Pairwise (fun u w => ∃ i, i < n ∧ u i ≠ w i) :=
+  ⟨allVals_length n, allVals_complete n, allVals_pairwise n⟩
+
+/-! ## exact_cardinality -/
+
+/-- `exact_cardinality` never panics on a level-well-formed diagram (any numbering of the nodes, any
+    level gaps, any `n`) and returns exactly the number of satisfying valuations of its `n` variables -/
+theorem exact_card_spec {A : Arr} {n : Nat} (h : WFo A n) :
+    exactCardO A = .ok (cnt n (fun v => evW A n v (root A))) := exactCardO_wfo h
+
+/-- the same for canonical arrays, in terms of `den` -/
+theorem exact_card_canonical {A : Arr} (h : Canonical A) :
+    exactCardO A = .ok (cnt (numVars A) (den A)) ∧ exactCard A = cnt (numVars A) (den A) := by
+  have e := exactCardO_wfo (B.C02.Canonical.wfo h)
+  have : (fun v => evW A (numVars A) v (root A)) = den A := funext (fun v => B.C02.Canonical.evW_root h v)
+  rw [this] at e
+  exact ⟨e, by unfold exactCard; rw [e]⟩
+
+/-- the same for post-order reduced arrays (with the two terminals in place) -/
+theorem exact_card_red {A : Arr} {n : Nat} (h : Red A n) (hp : Prefix (mkTrue n) A) :
+    exactCardO A = .ok (cnt n (den A)) := by
+  have hw := wfo_of_red h hp
+  rw [exactCardO_wfo hw]
+  congr 1
+  apply cnt_congr
+  intro v
+  have hs := h.size2
+  exact evW_eq_ev h hw v (root A) (root A) (by unfold root; omega) (Nat.le_refl _)
+
+/-- the count never exceeds `2ⁿ` -/
+theorem exact_card_le {A : Arr} {n : Nat} (h : WFo A n) : exactCard A ≤ 2 ^ n := by
+  rw [exactCard_wfo h]; exact cntV_le _ n 0 _
+
+/-! ## exact_clause_cardinality -/
+
+/-- `exact_clause_cardinality` never panics on a level-well-formed diagram and returns the number of
+    root-to-one paths (`pathsF`: the list of paths as lists of literals, low branch first) -/
+theorem clause_card_spec {A : Arr} {n : Nat} (h : WFo A n) :
+    clauseCardO A = .ok (pathsF A (n + 1) (root A)).length := by
+  rw [clauseCardO_wfo h, cardF_false_eq_paths]
+
+/-! ## the counting laws, for every `n` -/
+
+/-- `|f ∨ g| + |f ∧ g| = |f| + |g|` -/
+theorem card_or_and (n : Nat) (f g : (Nat → Bool) → Bool) :
+    cnt n (fun v => f v || g v) + cnt n (fun v => f v && g v) = cnt n f + cnt n g :=
+  cntV_or_and f g n 0 _
+
+/-- `|¬f| = 2ⁿ − |f|` -/
+theorem card_not (n : Nat) (f : (Nat → Bool) → Bool) : cnt n (fun v => !f v) = 2 ^ n - cnt n f := by
+  have := cntV_not f n 0 (fun _ => false)
+  unfold cnt; omega
+
+/-- count of the result of a modelled binary operator in terms of the operands' functions -/
+theorem exact_card_apply {a b : Arr} {n : Nat} (ha : WFo a n) (hb : WFo b n) (op : Op2)
+    (c : Bool → Bool → Bool) (hc : Consistent op c) :
+    exactCard (applyWithFlip a b op none none none) =
+      cnt n (fun v => c (evW a n v (root a)) (evW b n v (root b))) := by
+  have hcan := applyWithFlip_is_canonical a b n op c none none none ha hb hc (by simp) (by simp) (by simp)
+  have hn : numVars (applyWithFlip a b op none none none) = n := by
+    rw [applyWithFlip_eq_canon a b n op c none none none ha hb (numVars_of_wf ha) hc (by simp) (by simp) (by simp)]
+    exact numVars_canon n _ (specFn_dep a b n c none none none ha hb)
+  rw [(exact_card_canonical hcan).2, hn]
+  apply cnt_congr
+  intro v
+  exact applyWithFlip_den a b n op c none none none ha hb hc (by simp) (by simp) (by simp) v
+
+/-- the law `|a ∨ b| + |a ∧ b| = |a| + |b|` for the modelled `or`/`and` (regenerated tables) on any two
+    level-well-formed operands over the same `n` variables -/
+theorem card_or_and_model {a b : Arr} {n : Nat} (ha : WFo a n) (hb : WFo b n) :
+    exactCard (applyWithFlip a b Gen.or_ none none none) + exactCard (applyWithFlip a b Gen.and_ none none none) =
+      exactCard a + exactCard b := by
+  rw [exact_card_apply ha hb Gen.or_ _ or_consistent, exact_card_apply ha hb Gen.and_ _ and_consistent,
+    exactCard_wfo ha, exactCard_wfo hb]
+  exact card_or_and n _ _
+
+/-- the law `|¬a| = 2ⁿ − |a|` for the modelled `not` on canonical arrays -/
+theorem card_not_model {a : Arr} (h : Canonical a) :
+    exactCard (bddNot a) = 2 ^ numVars a - exactCard a := by
+  have hnot : bddNot a = canon (numVars a) (fun v => !den a v) := by
+    conv => lhs; rw [h]
+    exact bddNot_canon (numVars a) (den a) h.depBelow
+  have hdep : DepBelow (numVars a) (fun v => !den a v) := by
+    intro v w hvw; show (!den a v) = !den a w; rw [h.depBelow v w hvw]
+  have hcan : Canonical (bddNot a) := by rw [hnot]; exact canon_canonical _ _ hdep
+  have hn : numVars (bddNot a) = numVars a := by rw [hnot]; exact numVars_canon _ _ hdep
+  rw [(exact_card_canonical hcan).2, (exact_card_canonical h).2, hn]
+  have : cnt (numVars a) (den (bddNot a)) = cnt (numVars a) (fun v => !den a v) := by
+    apply cnt_congr; intro v; rw [hnot]; exact den_canon _ _ hdep v
+  rw [this]; exact card_not _ _
+
+/-! ## support_set -/
+
+/-- `support_set` collects exactly the variables stored in decision nodes, as a strictly increasing
+    (duplicate-free) list — for every array -/
+theorem support_set_nodes (A : Arr) :
+    (∀ x, x ∈ supportSet A ↔ ∃ p nd, 2 ≤ p ∧ A[p]? = some nd ∧ nd.var = x) ∧
+    (supportSet A).Pairwise (· < ·) :=
+  ⟨mem_supportSet A, supportSet_sorted A⟩
+
+/-- for a reduced array whose decision nodes are all reachable from the root, the support is exactly
+    the set of variables whose value can change the function's value -/
+theorem support_exact_reduced {A : Arr} {n : Nat} (h : Red A n)
+    (hreach : ∀ q, 2 ≤ q → q < A.size → Reach A (root A) q) (x : Nat) :
+    x ∈ supportSet A ↔ ∃ v : Nat → Bool, den A (upd v x true) ≠ den A (upd v x false) :=
+  support_exact_red h hreach x
+
+/-- for every canonical array (constants included) -/
+theorem support_exact {A : Arr} (h : Canonical A) (x : Nat) :
+    x ∈ supportSet A ↔ ∃ v : Nat → Bool, den A (upd v x true) ≠ den A (upd v x false) := by
+  rcases Nat.lt_or_ge A.size 3 with hs | hs
+  · -- a constant: no decision node, no dependence
+    constructor
+    · intro hx
+      obtain ⟨p, nd, hp, hnd, _⟩ := (mem_supportSet A x).1 hx
+      have : A[p]? = none := Array.getElem?_eq_none (by omega)
+      rw [this] at hnd; cases hnd
+    · rintro ⟨v, hv⟩
+      exfalso; apply hv
+      rcases h.cases with ⟨_, hf⟩ | ⟨hred, _, _⟩
+      · rw [hf, hf]
+      · have h2 : A.size = 2 := by have := hred.size2; omega
+        have ht := h.size_two_iff.1 h2
+        rw [ht, ht]
+  · obtain ⟨hred, hr⟩ := h.reach hs
+    exact support_exact_red hred hr x
+
+/-! ## size_per_variable -/
+
+/-- `size_per_variable` partitions the decision nodes over exactly the support: its keys are the
+    support set (in increasing order), the entry of `x` is the number of decision nodes that test `x`
+    (never zero), and the entries sum to `size − 2` — for every array -/
+theorem size_per_variable_partition (A : Arr) :
+    (sizePerVariable A).map (·.1) = supportSet A ∧
+    (∀ x c, (x, c) ∈ sizePerVariable A → c = (decisionVars A).count x ∧ 0 < c) ∧
+    ((sizePerVariable A).map (·.2)).sum = A.size - 2 := by
+  have hkeys : (sizePerVariable A).map (·.1) = supportSet A := by
+    unfold sizePerVariable supportSet; rw [foldl_bump_keys]; rfl
+  refine ⟨hkeys, ?_, ?_⟩
+  · intro x c hm
+    have hsorted : ((sizePerVariable A).map (·.1)).Pairwise (· < ·) := by rw [hkeys]; exact supportSet_sorted A
+    have hv := valOf_of_mem _ hsorted x c hm
+    have hcount : valOf (sizePerVariable A) x = (decisionVars A).count x := by
+      unfold sizePerVariable; rw [valOf_foldl]; simp [valOf]
+    have hc : c = (decisionVars A).count x := by rw [← hv, hcount]
+    refine ⟨hc, ?_⟩
+    rw [hc]
+    apply List.count_pos_iff.2
+    have : x ∈ (sizePerVariable A).map (·.1) := List.mem_map.2 ⟨(x, c), hm, rfl⟩
+    rw [hkeys] at this
+    unfold supportSet at this
+    rw [mem_foldl_ins] at this
+    simpa using this
+  · unfold sizePerVariable
+    rw [sum_foldl_bump, decisionVars_length]; simp
+
+/-! ## non-vacuity -/
+
+/-- `x0 ∧ x2` over 3 variables (the root skips level 1): hypotheses of `exact_card_spec` hold, the
+    model evaluates to 2 = |{101, 111}| -/
+example : WFo exX0X2 3 ∧ exactCardO exX0X2 = .ok 2 ∧ clauseCardO exX0X2 = .ok 1 ∧
+    supportSet exX0X2 = [0, 2] ∧ sizePerVariable exX0X2 = [(0, 1), (2, 1)] :=
+  ⟨exX0X2_wf, by rfl, by rfl, by decide, by decide⟩
+
+/-- … and the specification side gives the same number -/
+example : cnt 3 (fun v => evW exX0X2 3 v (root exX0X2)) = 2 := by decide
+
+/-- a non-post-order but level-well-formed array (the root is stored before its child): still covered -/
+def exPermuted : Arr := #[⟨3, 0, 0⟩, ⟨3, 1, 1⟩, ⟨1, 0, 3⟩, ⟨2, 0, 1⟩, ⟨0, 2, 3⟩]
+example : WFo exPermuted 3 := wfoB_sound (by decide)
+example : exactCardO exPermuted = .ok 3 := by rfl
+
+/-- the laws on concrete operands -/
+example : exactCard (applyWithFlip exX0X2 exX1 Gen.or_ none none none) +
+    exactCard (applyWithFlip exX0X2 exX1 Gen.and_ none none none) = exactCard exX0X2 + exactCard exX1 :=
+  card_or_and_model exX0X2_wf exX1_wf
+
 end B.Props.C09
